@@ -145,7 +145,7 @@ MANIFEST_TEXT = {
     },
     "C19": {
         "technique": "property-based round-trip testing through the real gRPC transport and the storage encoders, plus an end-to-end snapshot transfer",
-        "level_text": "Generated requests and responses of all three RPCs (all fields over 0/1/max uint64/random, empty/ASCII/multi-byte ids, 0-64 entries of all three types incl. encoded configurations, nil/empty/1 B/64 KiB data) are sent between two bundled transports over loopback and compared field by field; log entries, term/vote, configurations (0-7 members) and snapshot metadata are written through the storage API and read back by a fresh instance; snapshots of 0 B to 5 MiB (thorough: 6 MiB, twelve sizes around the 32 KiB chunk size and the 4 MiB RPC limit) are transferred from a leader to an empty node over the bundled transport and compared byte by byte.",
+        "level_text": "Generated requests and responses of all three RPCs (all fields over 0/1/max uint64/random, empty/ASCII/multi-byte ids, 0-5000 entries of all three types incl. encoded configurations, nil/empty/1 B/64 KiB data, single entries and stored records up to 3 MiB) are sent between two bundled transports over loopback and compared field by field; log entries, term/vote, configurations (0-7 members) and snapshot metadata are written through the storage API and read back by a fresh instance; snapshots of 0 B to 5 MiB (thorough: 6 MiB, twelve sizes around the 32 KiB chunk size and the 4 MiB RPC limit) are transferred from a leader to an empty node over the bundled transport and compared byte by byte.",
         "level_note": "Trusted: rapid's generators, the comparison helpers; the transfer part depends on real time (generous deadlines) and free loopback ports.",
     },
     "C13": {
